@@ -2,6 +2,7 @@ package main
 
 import (
 	"bytes"
+	"math"
 	"math/rand"
 	"sort"
 	"strconv"
@@ -68,6 +69,27 @@ func (h *heapRun) applyStats(o *obj, st Step, ret map[string]interface{}) bool {
 		e, err := needAlign(o).Entropy(ai(a, "site"), ab(a, "rmgaps"))
 		ret["f"] = fstr(e)
 		h.lastErr = err
+	case "EntropyAll":
+		al := needAlign(o)
+		fs := []interface{}{}
+		sum, nd := 0.0, 0
+		for i := 0; i < al.Length(); i++ {
+			e, err := al.Entropy(i, ab(a, "rmgaps"))
+			if err != nil {
+				h.lastErr = err
+				break
+			}
+			fs = append(fs, fstr(e))
+			if !math.IsNaN(e) {
+				sum += e
+				nd++
+			}
+		}
+		if ab(a, "avg") {
+			ret["avg"] = fstr(sum / float64(nd))
+		} else {
+			ret["f"] = fs
+		}
 	case "NbVariableSites":
 		ret["v"] = needAlign(o).NbVariableSites()
 	case "InformativeSites":
